@@ -606,6 +606,24 @@ def run_load_reapply(ctx: Ctx) -> RuleResult:
                 res.finding(load, load.node, 'LexerConf.%s is derived from option %s when building, is not serialised, '
                             'and is not re-derived when loading' % (fld, o), construct='LexerConf.%s<-%s' % (fld, o))
     res.require_instances(n, 3, 'non-serialised LexerConf fields derived from load-allowed options')
+    # the same option selects the same thing on both paths: `regex` only where the option is set, `re` only where it is not
+    from ..exprs import path_conditions
+    n_mod = 0
+    for q in sorted(build_funcs | load_funcs):
+        f = repo.functions[q]
+        for a in f.body_nodes():
+            if isinstance(a, ast.Assign) and isinstance(a.value, ast.Name) and a.value.id in ('regex', 're'):
+                conds = [(t, pol) for t, pol in path_conditions(a) if norm(t).endswith('.regex')]
+                n_mod += 1
+                want = a.value.id == 'regex'
+                ok = bool(conds) and all(pol is want for _t, pol in conds)
+                res.ob('%s %s' % (f.loc(a), f.qual), 'the module `%s` is chosen only where option regex is %s' % (a.value.id, want), ok)
+                if not ok:
+                    res.finding(f, a, 'the regexp module `%s` is selected %s: the %s parser compiles its terminals with the other module than the '
+                                'user asked for' % (a.value.id, 'where option regex is %s' % (not want) if conds else 'whatever option regex says',
+                                                    'loaded' if q in load_funcs and q not in build_funcs else 'built'),
+                                construct='re-module:%s' % a.value.id)
+    res.require_instances(n_mod, 4, 'regexp-module selections')
     # every other allowed option consumed while building is consumed while loading
     for o in sorted(allowed):
         fr = [x for x in fresh.get(o, []) if x[0].qual != init.qual or not _in_cache_block(x[1])]
